@@ -72,8 +72,9 @@ func importPrivCase(c *Ctx, in []byte) {
 		c.Count("import-check-panics")
 	} else if l, isL := out.(VL); isL && len(l) == 5 {
 		pk := k.PrivateKey
-		// (the constant-time exponentiation is defined for odd moduli only, which every DSA prime is)
-		if pk.P.Sign() > 0 && pk.P.Bit(0) == 1 && pk.P.BitLen() > 1 && pk.P.BitLen() <= 2048 && pk.X.BitLen() <= 512 {
+		// (the constant-time exponentiation is defined for odd moduli only, which every DSA prime is,
+		// and for a base below the modulus; the answer on degenerate parameter sets is not the property's business)
+		if pk.P.Bit(0) == 1 && pk.P.BitLen() >= 512 && pk.P.BitLen() <= 2048 && pk.X.BitLen() <= 512 && pk.G.Sign() > 0 && pk.G.Cmp(pk.P) < 0 && pk.Y.Sign() > 0 && pk.Y.Cmp(pk.P) < 0 {
 			want := new(big.Int).Exp(pk.G, pk.X, pk.P).Cmp(pk.Y) == 0
 			if want != ret {
 				c.Violate("roundtrip-mismatch", "DSAPrivateKey.Import", fmt.Sprintf("Import answered %v but g^x mod p == y is %v", ret, want), map[string]string{"input": string(trunc200(in))})
